@@ -63,6 +63,10 @@ pub enum Body {
 pub struct LinkFile {
     pub step: String,
     pub filed_under: KeySpec,
+    /// the text between `<step>.` and `.link` in the file name when it is not the first eight
+    /// characters of `filed_under`'s key id (e.g. dots followed by fewer than eight of them)
+    #[serde(default)]
+    pub name_field: Option<String>,
     pub body: Body,
 }
 
@@ -321,7 +325,7 @@ fn write_world_inner(w: &World, dir: &Path) -> MatInfo {
     let (layout_text, layout) = signed_text(&meta, &w.sigs, &w.tamper);
     let mut files = vec![];
     for f in &w.links {
-        let name = format!("{}.{}.link", f.step, prefix8(&f.filed_under));
+        let name = format!("{}.{}.link", f.step, f.name_field.clone().unwrap_or_else(|| prefix8(&f.filed_under)));
         let path = dir.join(&name);
         match &f.body {
             Body::Link { link, sigs, tamper } => {
@@ -425,7 +429,8 @@ pub fn judge(w: &World, info: &MatInfo, caller: &[KeySpec], now: i64, placement_
                 if !placement_ok {
                     break;
                 }
-                if f.step != s.name || prefix8(&f.filed_under) != prefix8(k) {
+                // a file counts for key k only if its name carries exactly the first eight characters of k's id
+                if f.step != s.name || f.name_field.clone().unwrap_or_else(|| prefix8(&f.filed_under)) != prefix8(k) {
                     continue;
                 }
                 let (doc, sub) = &info.files[fi];
